@@ -70,17 +70,17 @@ theorem run_append (m : Lts σ ℓ) : ∀ (t1 t2 : List ℓ) (s s1 : σ),
   | cons l ls ih =>
     intro t2 s s1 h
     simp only [run, List.cons_append] at h ⊢
-    split at h
-    · next s' h' => simp only [h']; exact ih t2 s' s1 h
-    · cases h
+    cases h' : m.step s l with
+    | none => simp [h'] at h
+    | some s' => simp only [h'] at h ⊢; exact ih t2 s' s1 h
 
 theorem run_of_reachable (m : Lts σ ℓ) (s : σ) (h : Reachable m s) :
     ∃ tr, m.run m.init tr = some s := by
   induction h with
   | init => exact ⟨[], rfl⟩
-  | step _ hst ih =>
+  | @step s1 s2 l _ hst ih =>
     obtain ⟨tr, htr⟩ := ih
-    refine ⟨tr ++ [_], ?_⟩
+    refine ⟨tr ++ [l], ?_⟩
     rw [run_append m tr _ _ _ htr]
     simp [run, hst]
 
@@ -99,6 +99,9 @@ def Chan.mk0 (cap : Nat) : Chan := { cap := cap, buf := [], closed := false }
 def count (p : Nat → Bool) : Nat → Nat
   | 0 => 0
   | n + 1 => count p n + (if p n then 1 else 0)
+
+/-- pointwise update of an indexed family -/
+def upd {α : Type} (f : Nat → α) (i : Nat) (x : α) : Nat → α := fun j => if j = i then x else f j
 
 /-- the items the consumer received that came from input `i` (the tag is ghost state) -/
 def gotOf (got : List (Nat × Nat)) (i : Nat) : List Nat :=
